@@ -14,15 +14,18 @@ Open Scope nat_scope.
 (** a one-hot grid is the image of one sequence only *)
 Lemma onehot_unique fb s q q' : onehot fb s q -> onehot fb s q' -> q = q'.
 Proof.
-  intros H H'. destruct H as (L & R & C & B). destruct H' as (L' & R' & C' & B').
-  assert (Ho : onehot fb s q) by (repeat split; assumption).
-  assert (Ho' : onehot fb s q') by (repeat split; assumption).
+  intros (L & R & C & B & I) (L' & R' & C' & B' & I').
   apply (nth_ext q q' [] []); [congruence|]. intros f Hf. rewrite L in Hf.
   apply (nth_ext (nth f q []) (nth f q' []) None None).
   - rewrite (R f Hf), (R' f Hf). reflexivity.
   - intros t Ht. rewrite (R f Hf) in Ht.
     change (get_cell q f t = get_cell q' f t).
-    now rewrite (onehot_cell fb s q t f Ho Ht Hf), (onehot_cell fb s q' t f Ho' Ht Hf).
+    destruct (isact fb f) eqn:Ea.
+    + destruct (C t f Ht Hf) as (i & Hi & Ei). destruct (C' t f Ht Hf) as (i' & Hi' & Ei').
+      pose proof (B t f i Ht Ea Hi) as E1. pose proof (B' t f i Ht Ea Hi) as E2.
+      rewrite Ei in E1. rewrite Ei' in E2. rewrite E1 in E2. rewrite !is_level_some, Nat.eqb_refl in E2.
+      symmetry in E2. apply Nat.eqb_eq in E2. congruence.
+    + now rewrite (I t f Ht Hf Ea), (I' t f Ht Hf Ea).
 Qed.
 
 Theorem sat_eq_random (fb : flat) (b : backend) (ok : bool) (n' : Z) (final : cnf) :
